@@ -163,6 +163,9 @@ func (g *Gen) Program(size int) *Program {
 	if g.chance(1, 4) {
 		p.Stmts = append(p.Stmts, g.recursionDecls()...)
 	}
+	if g.chance(1, 5) {
+		p.Stmts = append(p.Stmts, g.wrapperDecls()...)
+	}
 	n := 2 + g.pick(6)
 	for i := 0; i < n && g.budget > 0; i++ {
 		p.Stmts = append(p.Stmts, g.stmts()...)
@@ -1307,5 +1310,61 @@ func (g *Gen) recursionDecls() []Stmt {
 		g.declare(&gvar{name: res, typ: tBool})
 		g.feat("mutual-recursion")
 	}
+	return out
+}
+
+// wrapperDecls generates the wrapper idiom: inside a function a new variable takes the name of a function
+// that is visible there (a top-level function, or a parameter) and is initialised with a literal whose body
+// calls that name. The literal's name is the binding visible where the literal is written; the new
+// variable exists only after its declaration statement.
+func (g *Gen) wrapperDecls() []Stmt {
+	lit := func(v int64) Expr { return &IntLit{V: v} }
+	bin := func(op string, l, r Expr) Expr { return &Binary{Op: op, L: l, R: r} }
+	id := func(n string) Expr { return &Ident{Name: n} }
+	call := func(f string, a ...Expr) Expr { return &Call{F: &Ident{Name: f}, Args: a} }
+	var out []Stmt
+	arg := int64(1 + g.pick(9))
+	k := int64(1 + g.pick(5))
+	res := g.fresh("v")
+	deco := g.fresh("deco")
+	op := []string{"+", "*", "-"}[g.pick(3)]
+	switch g.pick(3) {
+	case 0:
+		// shadows a top-level function inside another function
+		base := g.fresh("base")
+		out = append(out, &FuncDecl{F: &FuncLit{Name: base, Params: []Param{{Name: "x"}}, Body: []Stmt{
+			&Return{X: bin("+", bin("*", id("x"), lit(2)), lit(k))}}}})
+		g.declare(&gvar{name: base, typ: tFunc, ro: true, fn: &gfunc{name: base, params: []T{tInt}, nreq: 1, ret: tInt}})
+		out = append(out, &FuncDecl{F: &FuncLit{Name: deco, Params: []Param{{Name: "n"}}, Body: []Stmt{
+			&VarDecl{Kind: ":=", Name: base, X: &FuncLit{Params: []Param{{Name: "x"}}, Body: []Stmt{
+				&Return{X: bin(op, call(base, id("x")), id("n"))}}}},
+			&Return{X: call(base, id("n"))}}}})
+	case 1:
+		// shadows a parameter, in a nested block
+		out = append(out, &FuncDecl{F: &FuncLit{Name: deco, Params: []Param{{Name: "n"}, {Name: "h", Default: nil}}, Body: []Stmt{
+			&ExprStmt{X: &IfExpr{Cond: bin(">", id("n"), lit(0)), Then: []Stmt{
+				&VarDecl{Kind: ":=", Name: "h", X: &FuncLit{Params: []Param{{Name: "x"}}, Body: []Stmt{
+					&Return{X: bin(op, call("h", id("x")), id("n"))}}}},
+				&Return{X: call("h", lit(k))}}}},
+			&Return{X: call("h", lit(1))}}}})
+		out = append(out, &VarDecl{Kind: ":=", Name: res, X: call(deco, lit(arg-3), &FuncLit{Params: []Param{{Name: "x"}}, Body: []Stmt{&Return{X: bin("+", id("x"), lit(3))}}})})
+		g.declare(&gvar{name: res, typ: tInt})
+		g.feat("wrapper-shadows-parameter")
+		return out
+	default:
+		// shadows a local of the same function from a nested block; the wrapper escapes and is called later
+		out = append(out, &FuncDecl{F: &FuncLit{Name: deco, Params: []Param{{Name: "n"}}, Body: []Stmt{
+			&VarDecl{Kind: ":=", Name: "w", X: &FuncLit{Params: []Param{{Name: "x"}}, Body: []Stmt{&Return{X: bin("-", id("x"), id("n"))}}}},
+			&VarDecl{Kind: ":=", Name: "acc", X: &ListLit{}},
+			&For{Kind: "three", Init: &VarDecl{Kind: ":=", Name: "i", X: lit(0)}, Cond: bin("<", id("i"), lit(2)), Post: &IncDec{Name: "i", Op: "++"}, Body: []Stmt{
+				&VarDecl{Kind: ":=", Name: "w", X: &FuncLit{Params: []Param{{Name: "x"}}, Body: []Stmt{
+					&Return{X: bin(op, call("w", id("x")), id("i"))}}}},
+				&ExprStmt{X: &MethodCall{X: id("acc"), Name: "append", Args: []Expr{call("w", lit(k))}}}}},
+			&Return{X: bin("+", call("w", lit(k)), call("len", id("acc")))}}}})
+	}
+	g.declare(&gvar{name: deco, typ: tFunc, ro: true, fn: &gfunc{name: deco, params: []T{tInt}, nreq: 1, ret: tInt}})
+	out = append(out, &VarDecl{Kind: ":=", Name: res, X: call(deco, lit(arg))})
+	g.declare(&gvar{name: res, typ: tInt})
+	g.feat("wrapper-shadows-visible-function")
 	return out
 }
